@@ -14,7 +14,7 @@ R-C02-7  constants of the range polynomial: radix 2 in `d`, `2^bits - 1`, `y - 1
 from bpsa.facts import callee_decl, callee_name
 from bpsa.normal import canon
 from bpsa.terms import walk, short, TERM_IDX, mk_elem, T
-from .common import guard_table
+from .common import guard_table, unconditional
 from . import msm, weights, recurrence
 from .weights import strip
 
@@ -109,7 +109,7 @@ def run(ctx):
     # ---- R-C02-3 shape guards
     flat = [(r, a) for r in rows for a in r['atoms']]
     def per_proof(r):
-        return r['eff'] != 'bypass' and any(x[0] == 'forall' and 'p3' in x[1] and 'p2' in x[1] and not any(b in x[1] for b in ('skip(', 'take(', 'rev(')) for x in r['ctx'])
+        return r['eff'] != 'bypass' and unconditional(r) and any(x[0] == 'forall' and 'p3' in x[1] and 'p2' in x[1] and not any(b in x[1] for b in ('skip(', 'take(', 'rev(')) for x in r['ctx'])
     def find(pred, name, ok, bad):
         hit = [r for r, a in flat if pred(a) and per_proof(r)]
         dom = [r for r in hit if cfg.dominates(r['guard'].bb, wbb if len(ws) == 1 else gbb) or cfg.dominates(r['guard'].bb, gbb)]
